@@ -134,6 +134,9 @@ pub fn judge_line(
         // F17: on Unix a backslash is an ordinary file-name character, but every
         // path is passed through normalize_to_posix (\ -> /) before it is used
         (Actor::Ai(_), Actor::Human) if path.contains('\\') => "backslash-in-path-loses-attribution",
+        // F36: a person re-touched only the white space of a pending AI line and the change
+        // merged with an adjacent edit of theirs into one hunk
+        (Actor::Ai(_), Actor::Human) if e.ws_touchers.contains(&Actor::Human) => "whitespace-retouch-merged-with-adjacent-edit-depends-on-checkpoints",
         (Actor::Ai(_), Actor::Human) => "ai-line-reported-human",
         (Actor::Human, Actor::Ai(_)) => "human-line-reported-ai",
         _ => "wrong-session",
